@@ -297,7 +297,7 @@ def gen_any(rng, end, phase):
         n = rng.choice([0, 1, 4, 5, 6, 8, 9, 12, rng.randint(0, 40)])
         return fr(P.frame_bytes(t, rng.choice([0, 1, 4, 5, 8, 0x20, 0x2d, 0xff, rng.randint(0, 255)]), sid,
                                 rand_bytes(rng, n)), False, 'random type %d sid %d len %d' % (t, sid, n),
-                  glob=(t == 4))
+                  glob=(t in (1, 4, 5, 9)))      # SETTINGS; random header-block fragments (see HPACK note)
     if r < 0.36:
         n = rng.choice([1, 3, 8, 9, 10, 24, 60])
         return fr(rand_bytes(rng, n), False, 'raw random bytes (%d)' % n, framed=False)
@@ -393,10 +393,15 @@ def gen_any(rng, end, phase):
                    'two peer-initiated streams with DATA, the first reset, in one chunk'),
         lambda: fr(headers_frame(ids['huge_peer'], req), False, 'HEADERS opening the largest stream id'),
         lambda: fr(headers_frame(ids['F'], resp), False, 'HEADERS on the finished stream'),
+        # HPACK note: random bytes can happen to BE a valid header block that inserts entries into the
+        # decoder's dynamic table; the peer's own encoder does not know them, so every later header block it
+        # sends (any stream) is decoded against a shifted table.  The peer has desynchronised its own HPACK
+        # state: connection-wide legitimate effect (glob), no claim about the concurrent call.
         lambda: fr(headers_frame(V, [], block=rand_bytes(rng, rng.choice([1, 5, 20]))), False,
-                   'HEADERS with garbage HPACK'),
+                   'HEADERS with garbage HPACK', glob=True),
         lambda: fr(headers_frame(V, [], block=mutate(rng, hpack_block(resp if end == 'client' else req)),
-                                 end_stream=rng.random() < 0.3), False, 'HEADERS with a mutated HPACK block'),
+                                 end_stream=rng.random() < 0.3), False, 'HEADERS with a mutated HPACK block',
+                   glob=True),
         lambda: fr(headers_frame(V, [(b':status', b'200'), (b'x-note', b'caf\xc3\xa9')]), False,
                    'HEADERS with a non-ASCII header value'),
         lambda: fr(headers_frame(V, [(b'grpc-status', b'2'), (b'grpc-message', b'\xff\xfe')], end_stream=True),
